@@ -16,9 +16,13 @@ Open Scope N_scope.
 Definition attrs := list N.          (* Mode, Size, FileId, Uid, Gid, mtime ns, atime ns *)
 Definition dent := N.                (* a directory entry is identified by a number *)
 
+(* one step of a history as the driver prints it: the clock at the call, the call, the observation *)
+Definition astep := ((N * attr_op attrs) * attr_obs attrs)%type.
+Definition dstep := ((N * dir_op dent) * dir_obs dent)%type.
+
 Inductive case :=
-| AttrCase (ttl mx : Z) (h : list (N * attr_op attrs)) (obs : list (attr_obs attrs)) (iso : bool)
-| DirCase (timeout mxe mxd : Z) (h : list (N * dir_op dent)) (obs : list (dir_obs dent)) (iso : bool)
+| AttrCase (ttl mx : Z) (steps : list astep) (iso : bool)
+| DirCase (timeout mxe mxd : Z) (steps : list dstep) (iso : bool)
 | ChildCase (p d : path) (r : bool)
 | RaceCase (rounds bad : N).        (* concurrent stress: number of rounds / of rounds that broke a statement *)
 
@@ -27,6 +31,35 @@ Definition ao (r : option (get_result attrs)) (size mx negs : N) : attr_obs attr
   {| o_res := r; o_size := size; o_max := mx; o_negs := negs |}.
 Definition dob (r : option (option (list dent))) (size mx : N) : dir_obs dent :=
   {| d_res := r; d_size := size; d_max := mx |}.
+
+(* compact step constructors (Coq spends ~0.5 ms per list element and literal, so the driver prints one
+   application per step).  t is the clock as an offset from the case's start (10^12 ns); an attribute block
+   the driver generated is named by its number i (mk_attrs i); a block read back from the cache is printed
+   by number only if all seven fields are those of mk_attrs i, otherwise in full (GX). *)
+Definition base_clock : N := 1000000000000.
+Definition mk_attrs (i : N) : attrs :=
+  [nth (N.to_nat (i mod 4)) [420; 493; 16877; 41471] 0; i; 3 * i + 1; i mod 5; i mod 7; 1000 * i + 5; i + 9].
+Definition P t k i s m n : astep := ((base_clock + t, APut k (mk_attrs i)), ao None s m n).
+Definition PN t k s m n : astep := ((base_clock + t, APutNegative k), ao None s m n).
+Definition GM t k s m n : astep := ((base_clock + t, AGet k), ao (Some Miss) s m n).
+Definition GN t k s m n : astep := ((base_clock + t, AGet k), ao (Some NegHit) s m n).
+Definition GH t k i s m n : astep := ((base_clock + t, AGet k), ao (Some (Hit (mk_attrs i))) s m n).
+Definition GX t k (a : attrs) s m n : astep := ((base_clock + t, AGet k), ao (Some (Hit a)) s m n).
+Definition IV t k s m n : astep := ((base_clock + t, AInvalidate k), ao None s m n).
+Definition ID t k s m n : astep := ((base_clock + t, AInvalidateNegativeInDir k), ao None s m n).
+Definition IT t k s m n : astep := ((base_clock + t, AInvalidateTree k), ao None s m n).
+Definition RS t (z : Z) s m n : astep := ((base_clock + t, AResize z), ao None s m n).
+Definition UT t (z : Z) s m n : astep := ((base_clock + t, AUpdateTTL z), ao None s m n).
+Definition CL t s m n : astep := ((base_clock + t, AClear), ao None s m n).
+Definition CF t (b : bool) (z : Z) s m n : astep := ((base_clock + t, AConfigureNegative b z), ao None s m n).
+Definition DP t k (es : list dent) s m : dstep := ((base_clock + t, DPut k es), dob None s m).
+Definition DG0 t k s m : dstep := ((base_clock + t, DGet k), dob (Some None) s m).
+Definition DG1 t k (es : list dent) s m : dstep := ((base_clock + t, DGet k), dob (Some (Some es)) s m).
+Definition DI t k s m : dstep := ((base_clock + t, DInvalidate k), dob None s m).
+Definition DT t k s m : dstep := ((base_clock + t, DInvalidateTree k), dob None s m).
+Definition DR t (z : Z) s m : dstep := ((base_clock + t, DResize z), dob None s m).
+Definition DU t (z : Z) s m : dstep := ((base_clock + t, DUpdateTTL z), dob None s m).
+Definition DC t s m : dstep := ((base_clock + t, DClear), dob None s m).
 
 Definition attrs_eqb : attrs -> attrs -> bool := list_eqb N.eqb.
 Definition gres_eqb (a b : get_result attrs) : bool :=
@@ -59,12 +92,14 @@ Fixpoint dir_direct (i : N) (obs : list (dir_obs dent)) : list (N * N) :=
 
 Definition check (c : case) : list (N * N) :=
   match c with
-  | AttrCase ttl mx h obs iso =>
+  | AttrCase ttl mx steps iso =>
+    let h := map fst steps in let obs := map snd steps in
     (if iso then [] else [(0, code_specfail)]) ++
     attr_direct 0 false h obs ++
     diff_code aobs_eqb code_specfail (sa_run_obs direct_child_b (sa_new ttl mx) h) obs ++
     diff_code aobs_eqb code_mismatch (attr_run_obs (new_attr_cache ttl mx) h) obs
-  | DirCase t mxe mxd h obs iso =>
+  | DirCase t mxe mxd steps iso =>
+    let h := map fst steps in let obs := map snd steps in
     (if iso then [] else [(0, code_specfail)]) ++
     dir_direct 0 obs ++
     diff_code dobs_eqb code_specfail (sd_run_obs (sd_new t mxe mxd) h) obs ++
